@@ -599,7 +599,15 @@ def reference_check(cfg, rules, adapter, path, method, out, ws=None, lenient_nos
             if e is not None and e[0] and mex is not None and mex[0]:
                 why = more_specific(rr, me)
                 if why:
-                    return (f"priority: rule #{rr.idx} also admits the path and is more specific than the returned #{idx} ({why})", False)
+                    # F03d: literal text after a path converter is counted in the weight of the (slash
+                    # consuming) part, so such a rule outranks narrower converters at that segment
+                    tail = False
+                    seen = False
+                    for t in me.toks:
+                        if seen and t != "/" and t[0] == "L":
+                            tail = True
+                        seen = seen or (t != "/" and t[0] == "V" and t[1][0] == "p")
+                    return (f"priority: rule #{rr.idx} also admits the path and is more specific than the returned #{idx} ({why})", "path-tail" if tail and why.startswith("narrower") else False)
         return None
     if kind == "R":
         url = bytes.fromhex(out[2:]).decode()
@@ -755,7 +763,27 @@ def gen_rule(rng, idx, cfg, allow_path=True, f03=0.12):
     return mk_rule(toks, endpoint=f"e{idx}", methods=methods), has_path
 
 
-def sample_value(rng, c, hit=True):
+CTL = ["\n", "\n", "\r", "\x0b", "\n\n", "\x85", "\u2028"]
+
+
+def sample_value(rng, c, hit=True, ctl=0.06):
+    """a value for converter `c`; with probability `ctl` decorated with a control character (a trailing
+    newline after every kind of value, one in the middle, one in front): %0A etc. decoded by the server"""
+    v = _sample_value(rng, c, hit)
+    if rng.random() < ctl:
+        r = rng.random()
+        ch = rng.choice(CTL)
+        if r < 0.6:
+            v = v + ch
+        elif r < 0.8 and len(v) > 1:
+            i = rng.randrange(1, len(v))
+            v = v[:i] + ch + v[i:]
+        else:
+            v = ch + v
+    return v
+
+
+def _sample_value(rng, c, hit=True):
     k = c[0]
     if not hit:
         return rng.choice(["", "zz", "1", "-1", "1.5", "a/b", "12345", "x.y", "é", UUIDS[0][:-1], "٣"])
@@ -795,7 +823,7 @@ def path_for(rng, rule, mode):
         elif t[0] == "L":
             out.append(t[1] if mode != "lit" or rng.random() < 0.7 else rng.choice(LITS))
         else:
-            out.append(sample_value(rng, t[1], hit=(mode != "val" or rng.random() < 0.6)))
+            out.append(sample_value(rng, t[1], hit=(mode != "val" or rng.random() < 0.6), ctl=0.5 if mode == "ctl" and rng.random() < 0.5 else 0.04))
     p = "".join(out)
     if mode == "slash":
         p = p[:-1] if p.endswith("/") and rng.random() < 0.6 else p + "/"
@@ -812,10 +840,16 @@ def path_for(rng, rule, mode):
             p = "/".join(segs[: rng.randrange(2, len(segs))])
     elif mode == "extend":
         p = p + rng.choice(["/x", "x", "/", "//", "/edit"])
+    elif mode == "ctl":
+        # a control character at the end of the path or of one of its segments
+        ch = rng.choice(CTL)
+        idxs = [i for i, x in enumerate(p) if x == "/" and i > 0] + [len(p)]
+        i = rng.choice(idxs)
+        p = p[:i] + ch + p[i:]
     return p
 
 
-MODES = ["hit", "hit", "hit", "slash", "slash", "double", "lead", "lit", "val", "val", "trunc", "extend"]
+MODES = ["hit", "hit", "hit", "slash", "slash", "double", "lead", "lit", "val", "val", "trunc", "extend", "ctl"]
 METHODS = ["GET", "GET", "POST", "HEAD", "PUT", "get", "OPTIONS"]
 
 
@@ -823,7 +857,7 @@ def gen_probes(rng, rules, n):
     probes = []
     for _ in range(n):
         if rng.random() < 0.08:
-            p = rng.choice(["/", "", "//", "/x", "/a/b", "/12", "/a//b", "/%2F", "/\\x", "x"])
+            p = rng.choice(["/", "", "//", "/x", "/a/b", "/12", "/a//b", "/%2F", "/\\x", "x", "/12\n", "/a\n", "/12\n/edit", "/\n", "/1.5\n"])
         else:
             p = path_for(rng, rng.choice(rules), rng.choice(MODES))
         probes.append([p, rng.choice(METHODS)])
@@ -842,6 +876,12 @@ class MatchStream(Stream):
         {"cfg": mk_cfg(strict=False), "rules": [mk_rule(toks_of("/a/"), "a"), mk_rule(toks_of("/b"), "b")], "adapter": mk_adapter(), "probes": [["/a", "GET"], ["/a/", "GET"], ["/a//", "GET"], ["/b", "GET"], ["/b/", "GET"], ["/b//", "GET"]]},
         {"cfg": mk_cfg(), "rules": [mk_rule(toks_of("/x/<path:p>/"), "a"), mk_rule(toks_of("/y/<path:p>/edit"), "b"), mk_rule(toks_of("/<path:p>"), "c")], "adapter": mk_adapter(), "probes": [["/x/a/b", "GET"], ["/x/a/b/", "GET"], ["/x/a/b//", "GET"], ["/x/a\nb/", "GET"], ["/y/a/b/edit", "GET"], ["/y/a/b/edit/", "GET"], ["/y//edit", "GET"], ["/q/", "GET"]]},
         {"cfg": mk_cfg(), "rules": [mk_rule(toks_of("/<int:p>"), "a"), mk_rule(toks_of("/<float:f>"), "f"), mk_rule(toks_of("/u/<uuid:u>"), "u")], "adapter": mk_adapter(), "probes": [["/١٢", "GET"], ["/1²", "GET"], ["//host/1", "GET"], ["/\\host", "GET"], ["", "GET"], ["x", "GET"], ["/٣.٥", "GET"], ["/007.50", "GET"], ["/u/ABCDEF01-2345-6789-abcd-ef0123456789", "GET"]]},
+        # end anchors of the part regexes: a trailing newline (%0A) is not swallowed
+        {"cfg": mk_cfg(), "rules": [mk_rule(toks_of("/<int:id>"), "i")], "adapter": mk_adapter(), "probes": [["/12\n", "GET"], ["/12", "GET"], ["/12\r", "GET"], ["/\n12", "GET"], ["/1\n2", "GET"]]},
+        {"cfg": mk_cfg(), "rules": [mk_rule(toks_of("/<int:id>/edit"), "i"), mk_rule(toks_of("/<string:name>/edit"), "s")], "adapter": mk_adapter(), "probes": [["/12\n/edit", "GET"], ["/12/edit", "GET"], ["/12/edit\n", "GET"]]},
+        {"cfg": mk_cfg(), "rules": [mk_rule(toks_of("/<float:f>"), "f"), mk_rule(toks_of("/u/<uuid:u>"), "u"), mk_rule(toks_of("/a/<any(a,b):x>"), "a"), mk_rule(toks_of("/s/<string(length=2):s>"), "s"), mk_rule(toks_of("/h/<string:s>.html"), "h"), mk_rule(toks_of("/p/<path:p>"), "p")], "adapter": mk_adapter(), "probes": [["/1.5\n", "GET"], ["/u/" + UUIDS[0] + "\n", "GET"], ["/a/a\n", "GET"], ["/s/ab\n", "GET"], ["/s/a\n", "GET"], ["/h/x.html\n", "GET"], ["/h/x\n.html", "GET"], ["/p/a\n", "GET"], ["/p/a/b\n", "GET"]]},
+        # F03d (known finding): literal text after a path converter outweighs a narrower converter
+        {"cfg": mk_cfg(), "rules": [mk_rule(toks_of("/<path:p>/edit"), "p"), mk_rule(toks_of("/<string:s>/edit"), "s"), mk_rule(toks_of("/<int:i>/edit"), "i")], "adapter": mk_adapter(), "probes": [["/12/edit", "GET"], ["/ab/edit", "GET"], ["/a/b/edit", "GET"]]},
         # priority
         {"cfg": mk_cfg(), "rules": [mk_rule(toks_of("/<string:s>"), "s"), mk_rule(toks_of("/<path:p>"), "p"), mk_rule(toks_of("/<int:i>"), "i"), mk_rule(toks_of("/12"), "l")], "adapter": mk_adapter(), "probes": [["/12", "GET"], ["/13", "GET"], ["/ab", "GET"], ["/a/b", "GET"]]},
         {"cfg": mk_cfg(), "rules": [mk_rule(toks_of("/x<string:s>"), "s"), mk_rule(toks_of("/<int:i>"), "i"), mk_rule(toks_of("/<int:j>/"), "j"), mk_rule(toks_of("/<a>/<b>"), "ab"), mk_rule(toks_of("/<a>/x"), "ax")], "adapter": mk_adapter(), "probes": [["/x1", "GET"], ["/1", "GET"], ["/1/", "GET"], ["/1/x", "GET"], ["/1/y", "GET"]]},
@@ -924,6 +964,8 @@ class MatchStream(Stream):
                 # the only discrepancy: a branch rule with strict_slashes off admits the slash-less
                 # path, but its methods are not counted for MethodNotAllowed
                 fam = "F03b"
+            elif r[1] == "path-tail":
+                fam = "F03d"
             elif r[1] == "redirect-before-conversion":
                 # the slash / merged-slashes redirect is raised before conversion: its target is
                 # a path whose value the converter then rejects
@@ -944,7 +986,7 @@ class MatchStream(Stream):
         return res[0][0] + (f" [{res[0][1]}]" if res[0][1] else "")
 
     def finding_key(self, case, what):
-        for k in ("F03", "F03b", "F03c"):
+        for k in ("F03", "F03b", "F03c", "F03d"):
             if what.endswith(f" [{k}]"):
                 return k
         return None
@@ -983,6 +1025,18 @@ class KernelStream(Stream):
             ("/<string(minlength=2,maxlength=3):s>", "abcd"),
             ("/<path:p>", "a\nb"),
             ("/<s>", "a\nb"),
+            ("/<int:x>", "12\n"),
+            ("/<int(fixed_digits=2):x>", "12\n"),
+            ("/<float:x>", "1.5\n"),
+            ("/<any(a,b):x>", "a\n"),
+            ("/<uuid:u>", UUIDS[0] + "\n"),
+            ("/<string(length=2):s>", "ab\n"),
+            ("/<string(length=2):s>", "a\n"),
+            ("/<s>.html", "a.html\n"),
+            ("/<path:p>.txt", "a/b.txt\n"),
+            ("/<path:p>/", "a/b/\n"),
+            ("/<int:x>", "12\r"),
+            ("/<int:x>", "12\x0b"),
         ]
     ]
 
@@ -997,7 +1051,9 @@ class KernelStream(Stream):
             segs = p.split("/")
             # a single segment, or the tail of the path (what a final part sees)
             k = rng.randrange(len(segs))
-            target = rng.choice([segs[k], "/".join(segs[k:]), p.lstrip("/"), sample_value(rng, gen_conv(rng), rng.random() < 0.8)])
+            target = rng.choice([segs[k], "/".join(segs[k:]), p.lstrip("/"), sample_value(rng, gen_conv(rng), rng.random() < 0.8, ctl=0.3)])
+            if rng.random() < 0.12:
+                target = target + rng.choice(CTL)
             yield {"cfg": cfg, "rule": r, "target": target}
 
     def real(self, case):
@@ -1042,6 +1098,7 @@ CHECK = Check(
         "specificity order of the reference: exactly the documented one (literal segment beats variable; int/float before string before path for bare variable segments); the Lean theorem match_priority proves the stronger Weighting order",
         "known finding F03: to_python runs after rule selection, ValidationError becomes NoMatch without backtracking (negation witness match_notfound_only_if_full_false; theorems assume ConvOK)",
         "known finding F03b: the slash-less admission of a non-strict branch rule is not counted for MethodNotAllowed (negation witnesses match_notfound_any_method_full_false, match_405_full_false)",
+        "known finding F03d: literal text after a path converter is part of the same slash-consuming RulePart and counts in its Weighting (number of static weights first), so Rule('/<path:p>/edit') outranks Rule('/<string:s>/edit') and Rule('/<int:i>/edit') - against the documented 'int/float before string before path'; match_priority proves the Weighting order the code implements, witness path_with_literal_tail_beats_narrower",
         "known finding F03c: SlashRequired / merged-slashes redirect is raised before to_python validation, so the redirect target can be NotFound",
         "match_405_iff_partial additionally assumes the path is not subject to slash merging (the second pass adds the methods of rules that admit the merged path)",
         "insertion order: proved for arbitrary permutations that the search is None for one order iff for the other, and that the found rule and groups coincide when the specificity order decides between the directly admitting (strict) rules (insertion_order_irrelevant_partial); rules of equal specificity (e.g. <int:x> vs <float:y> at the same place, or two rules with the same pattern) are a genuine tie broken by insertion order: the hypothesis is shown necessary by insertion_order_irrelevant_full_false (<string> vs <uuid>); deriving decisiveness from a syntactic condition and the non-strict forms stay OPEN (see Props/C03.lean)",
@@ -1053,7 +1110,7 @@ CHECK = Check(
 
 MANIFEST = {
     "level_text": "Machine-checked Lean 4 theorems about an executable model of Rule compilation, StateMachineMatcher.add/update/match (same control flow: static before dynamic, weight-sorted dynamics, backtracking, slash / merged-slashes passes, conversion after selection) and MapAdapter.match, against a per-rule recogniser that is independent of all other rules: soundness, NotFound and MethodNotAllowed characterisations, priority (returned rule is specificity-minimal) for arbitrary rule lists and paths; converter regex/weight tables regenerated from the live DEFAULT_CONVERTERS and checked by decide; model tied to the code by two differential streams; an independent regex-per-rule oracle runs on the real code.",
-    "level_note": "Trusted: Lean kernel; extract.py; harness; CPython re/int/float/uuid (modelled, stream-validated). NotFound/405 theorems are _partial: they assume to_python accepts what the regex accepts (F03), count no slash-less admissions (F03b) and, for 405, no slash merging; insertion-order independence is proved in a _partial form (search-None equivalence; equal result when the specificity order is decisive), full strength OPEN. Known findings F03, F03b, F03c.",
+    "level_note": "Trusted: Lean kernel; extract.py; harness; CPython re/int/float/uuid (modelled, stream-validated). NotFound/405 theorems are _partial: they assume to_python accepts what the regex accepts (F03), count no slash-less admissions (F03b) and, for 405, no slash merging; insertion-order independence is proved in a _partial form (search-None equivalence; equal result when the specificity order is decisive), full strength OPEN. Known findings F03, F03b, F03c, F03d.",
     "technique": "Lean 4 proof (induction over the nested trie, strict-weak-order proof for Weighting, decide +kernel over regenerated tables and concrete witnesses) + model/code correspondence",
     "design_ref": "DESIGN.md section 4, C03",
 }
